@@ -393,6 +393,7 @@ def run(ck: Check):
     live_failures = []  # (case, use_prior, ops, records)
     route_failures = []  # {"case", "route", "baseline", "value" | "error"}
     probe_failures = []  # (probe, result)
+    interleaved_failures = []  # (plan, records)
     rng = ck.rng
     thorough = ck.thorough()
     try:
@@ -408,7 +409,7 @@ def run(ck: Check):
                 ck.mismatch("corpus case could not be evaluated", {"file": f.name, "error": repr(e)[:300]})
         if drv:
             table_correspondence(ck, drv)
-            exact_direct(ck, drv, torch, 3000 if thorough else 500)
+            exact_direct(ck, drv, torch, 3000 if thorough else 300)
         # ---- (b)(c)(d) configurations: every substitution model x site model x rooting x tip representation
         substs = ["JC69", "HKY", "GTR", "GeneralSymmetric", "GeneralNonSymmetric", "LG", "WAG", "MG94"]
         sites = ["constant", "invariant", "weibull", "weibull+inv"]
@@ -513,6 +514,25 @@ def run(ck: Check):
                 raise
             except Exception as e:  # noqa: BLE001
                 ck.mismatch("construction routes could not be evaluated", {"error": repr(e)[:300]})
+        # ---- SEVERAL LIVE INSTANCES: 2-3 differently configured models (taxa counts, topologies, rootings, data types,
+        #      substitution / site / clock models) all built BEFORE any is evaluated, their histories interleaved; between the
+        #      steps other helper objects (bare tree models of other topologies, alignments, site patterns, data types, site /
+        #      substitution / clock models) are constructed by the oracle's own fresh builds; every evaluation vs the oracle of ITS model
+        for h in range(60 if thorough else 12):
+            try:
+                plan = LV.gen_interleaved(rng)
+                recs = LV.run_interleaved(plan)
+            except InfraError:
+                raise
+            except Exception as e:  # noqa: BLE001
+                ck.mismatch("interleaved instances could not be evaluated", {"error": repr(e)[:300]})
+                continue
+            ck.case(key=("interleaved", h, json.dumps(plan["schedule"])[:200]), bucket=f"live/interleaved/{len(plan['histories'])}-instances",
+                    sample={"instances": [(len(x["case"]["taxa"]), x["case"]["subst"]["kind"], x["case"]["rooting"]) for x in plan["histories"]],
+                            "evaluations": len(recs)} if h < 1 else None)
+            ck.bucket("live/interleaved/evaluations", len(recs))
+            if any(LV.failing(r) for r in recs):
+                interleaved_failures.append((plan, recs))
         mutation_failures = []
         for i in range(8 if thorough else 2):
             try:
@@ -596,6 +616,32 @@ def run(ck: Check):
             f"model gives {bad['fresh']} ({len(live_failures)} failing histories)",
             {"live": {"case": case, "use_prior": use_prior, "ops": ops}, "records": [{k: v for k, v in r.items() if k != "case"} for r in recs],
              "broken_obligations": broken, "replay_cmd": "./check C01 --replay <this file>"},
+        )
+    if interleaved_failures:
+        found = True
+        interleaved_failures.sort(key=lambda f: (len(f[0]["histories"]), len(f[0]["schedule"])))
+        plan, recs = interleaved_failures[0]
+        # shrink: keep the failing instance + one other, cut the schedule after the first failing evaluation
+        try:
+            bad_i = next(r["instance"] for r in recs if LV.failing(r))
+            for keep in [o for o in range(len(plan["histories"])) if o != bad_i]:
+                sub = {"histories": [plan["histories"][bad_i], plan["histories"][keep]],
+                       "schedule": [[0 if i == bad_i else 1, j] for i, j in plan["schedule"] if i in (bad_i, keep)]}
+                r2 = LV.run_interleaved(sub)
+                if any(LV.failing(r) for r in r2):
+                    plan, recs = sub, r2
+                    break
+        except Exception as e:  # noqa: BLE001
+            ck.notes.append("shrinking an interleaved plan failed: " + repr(e)[:200])
+        bad = next(r for r in recs if LV.failing(r))
+        desc = [(len(h["case"]["taxa"]), h["case"]["subst"]["kind"], h["case"]["rooting"]) for h in plan["histories"]]
+        ck.violation(
+            "TreeLikelihoodModel:several-live-instances",
+            f"with {len(plan['histories'])} models alive at once {desc} (all built before the first evaluation, operations interleaved) "
+            f"instance {bad['instance']} returns {bad['impl']} but the marginal over all labelings for ITS OWN tree and data is {bad['oracle']} "
+            f"(a model built alone gives {bad['fresh']}; {len(interleaved_failures)} failing plans)",
+            {"interleaved": plan, "records": [{k: v for k, v in r.items() if k != "case"} for r in recs][:40],
+             "replay_cmd": "./check C01 --replay <this file>"},
         )
     for route in sorted(set(f["route"] for f in route_failures)):
         found = True
@@ -721,6 +767,17 @@ def replay(path: str) -> int:
         res = RG.run_probe(obj["probe"])
         print(f"probe {obj['probe']['kind']}: {json.dumps({k: v for k, v in res.items() if k != 'where'}, default=str)[:600]}; {'ok' if res['ok'] else 'VIOLATES'}")
         return 0 if res["ok"] else 1
+    if obj.get("interleaved"):
+        recs = LV.run_interleaved(obj["interleaved"])
+        bad = False
+        for r in recs:
+            f = LV.failing(r)
+            bad = bad or f
+            if f or len(recs) <= 12:
+                print(f"instance {r['instance']} eval at op {r['step']}: live model = {r['impl']!r}; marginal for its own tree/data = {r['oracle']!r}; "
+                      f"model built alone = {r['fresh']!r}; {'VIOLATES' if f else 'ok'} {r.get('error', '')}")
+        print("VIOLATES" if bad else "ok")
+        return 1 if bad else 0
     if obj.get("live"):
         lv = obj["live"]
         recs = LV.run_live(lv["case"], lv["use_prior"], lv["ops"])
